@@ -60,6 +60,20 @@ Fixpoint saccs (sh : bool) (s : stmt) : list acc :=
 
 Definition accs (sh : bool) (r : list stmt) : list acc := flat_map (saccs sh) r.
 
+(* ---- Assignment.reference_accesses raises NotImplementedError ("appears more than once on the left-hand
+   side") when the assigned variable also has an access inside its own index expressions — with the
+   shape-read option this includes `d(size(d,1)) = ...` *)
+Fixpoint s_ok (sh : bool) (s : stmt) : bool :=
+  match s with
+  | SAssign x ix _ => negb (mem x (flat_map (ereads_s sh) ix))
+  | SIf _ th el => forallb (s_ok sh) th && forallb (s_ok sh) el
+  | SDo _ _ _ _ body => forallb (s_ok sh) body
+  | SRegion _ body => forallb (s_ok sh) body
+  | SDir _ body => forallb (s_ok sh) body
+  | _ => true
+  end.
+Definition accs_ok (sh : bool) (r : list stmt) : bool := forallb (s_ok sh) r.
+
 (* ---- SingleVariableAccessInfo predicates on a location-free access list *)
 Definition of_var (x : name) (l : list acc) : list akind :=
   map snd (filter (fun a => Nat.eqb (fst a) x) l).
@@ -166,6 +180,35 @@ Fixpoint s_arrs (s : stmt) : list name :=
   end.
 Definition arrays_of (r : list stmt) : list name := flat_map s_arrs r.
 
+(* ---- array extents as part of the incoming state.  [inq_of r]: arrays whose bounds the region can read
+   (first argument of LBOUND / UBOUND / SIZE).  The extents of the RECORDED variables (reported inputs, and
+   outputs, whose `_post` copy carries the shape) are part of the recorded state; [inq_ok]: every inquired
+   array is recorded.  With ExtractTrans' option COLLECT-ARRAY-SHAPE-READS an inquired array gets a READ
+   access, so it is an input unless its first access is a write (then it is an output). *)
+Fixpoint e_inq (e : expr) : list name :=
+  match e with
+  | ELit _ | EVar _ => []
+  | EIdx _ ix => flat_map e_inq ix
+  | EUn _ e1 => e_inq e1
+  | EBin _ l r => e_inq l ++ e_inq r
+  | EIntr f args =>
+      (if is_inquiry f then match args with EVar a :: _ => [a] | _ => [] end else [])
+      ++ flat_map e_inq args
+  end.
+Fixpoint s_inq (s : stmt) : list name :=
+  match s with
+  | SAssign _ ix e => flat_map e_inq ix ++ e_inq e
+  | SIf c th el => e_inq c ++ flat_map s_inq th ++ flat_map s_inq el
+  | SDo _ lo hi st body => e_inq lo ++ e_inq hi ++ e_inq st ++ flat_map s_inq body
+  | SExit | SCycle | SReturn => []
+  | SPrint es => flat_map e_inq es
+  | SRegion _ body => flat_map s_inq body
+  | SDir _ body => flat_map s_inq body
+  end.
+Definition inq_of (r : list stmt) : list name := flat_map s_inq r.
+Definition recorded (sh : bool) (r : list stmt) : list name := inputs sh r ++ outputs r.
+Definition inq_ok (sh : bool) (r : list stmt) : bool := forallb (fun a => mem a (recorded sh r)) (inq_of r).
+
 (* safe: with the reported inputs taken as the agreeing variables, no read ever needs anything else,
    and every output that is not an input is a scalar (never indexed in r) that is definitely
    assigned on every normally completing execution. *)
@@ -175,6 +218,8 @@ Definition safe_with (V : list name) (r : list stmt) : bool :=
   | None => false
   end.
 Definition safe (sh : bool) (r : list stmt) : bool := safe_with (inputs sh r) r.
+(* safe when array extents may differ between the recording run and the replay *)
+Definition safe_ext (sh : bool) (r : list stmt) : bool := safe sh r && inq_ok sh r.
 
 (* reads are safe (no upward-exposed read outside the inputs) but some output is not reproduced *)
 Definition reads_safe (sh : bool) (r : list stmt) : bool :=
